@@ -194,7 +194,17 @@ def main():
         ok = build(ctx, mod.LEAN_MODULES)
         axioms = audit(ctx, mod.LEAN_MODULES, mod.THEOREMS) if ok else {}
         ctx.proofs_ok = ok and not ctx.breaks
-        mod.run(ctx)               # correspondence suites + searcher; fills ctx.violations/breaks/stats
+        try:
+            mod.run(ctx)           # correspondence suites + searcher; fills ctx.violations/breaks/stats
+        except (Infra, subprocess.TimeoutExpired):
+            raise
+        except Exception as e:
+            # the implementation under test may behave so strangely that a later stage of the driver trips over it: what was
+            # found before that point is still a finding; without any finding this is an infrastructure problem
+            if not (ctx.violations or ctx.breaks): raise
+            import traceback
+            ctx.say('driver stopped after its findings: %s: %s' % (type(e).__name__, str(e)[:200]))
+            ctx.stats['driver_exception_after_findings'] = traceback.format_exc()[-1500:]
     except Infra as e:
         print('INFRASTRUCTURE: %s' % e)
         return 2
